@@ -134,8 +134,9 @@ class SimRefClock : public ace_time::testing::FakeClock {
   }
   acetime_t readResponse() const override {
     readCalls++; readSeq = ++seq;
-    acetime_t v = (outstanding && *nowMs >= readyAt) ? currentAnswer()
-        : (outstanding ? kInvalid : lastRead);  // reading when not ready: an error value
+    // reading when nothing is ready, or when no request is outstanding at all: an error value (there is no
+    // datagram to read; a machine that re-reads an answer it has already consumed gets nothing)
+    acetime_t v = (outstanding && *nowMs >= readyAt) ? currentAnswer() : kInvalid;
     if (outstanding && *nowMs >= readyAt) outstanding = false;
     lastRead = v;
     return v;
@@ -275,15 +276,21 @@ struct SyncModel {
   std::set<uint32_t> C;
   Phase phase = IDLE;
   After after = BOOT;
-  int64_t dueMin = INT64_MIN / 4, dueMax = 0, start = 0;
+  // dueMin: earliest admissible instant of the next request (rule 3). dueExpect: where the shipped schedule places
+  // it (used only to aim ADVDL / DRAIN at the interesting instants). dueMax: the liveness bound (rule 5) - the
+  // statement promises "a bounded time" and names no schedule, so the bound is one full largest period after the
+  // event that started the wait, whichever of the admissible schedules the machine follows.
+  int64_t dueMin = INT64_MIN / 4, dueExpect = 0, dueMax = 0, start = 0;
   int overdue = 0, unread = 0, failStreak = 0;
   uint64_t requests = 0, successes = 0, failures = 0;
 
   void boot(const SyncCfg& c, int64_t now) {
     cfg = c; C.clear(); C.insert(c.init);
-    phase = IDLE; after = BOOT; dueMin = INT64_MIN / 4; dueMax = now;
+    if (c.init > c.sync) C.insert(c.sync);   // "up to the sync period": a machine may clamp the initial period at once
+    phase = IDLE; after = BOOT; dueMin = INT64_MIN / 4; dueExpect = now; dueMax = now + maxPeriodMs();
     overdue = unread = failStreak = 0;
   }
+  int64_t maxPeriodMs() const { return (int64_t)(cfg.init > cfg.sync ? cfg.init : cfg.sync) * 1000; }
   uint32_t minC() const { return *C.begin(); }
   uint32_t maxC() const { return *C.rbegin(); }
   void advanceC() {
@@ -300,7 +307,8 @@ struct SyncModel {
     int64_t dm = start + Q * 1000;
     phase = IDLE; after = FAILURE;
     dueMin = start + P * 1000;
-    dueMax = f > dm ? f : dm;
+    dueExpect = f > dm ? f : dm;
+    dueMax = f + maxPeriodMs();
     advanceC();
     overdue = 0; failStreak++; failures++;
   }
@@ -311,8 +319,7 @@ struct SyncModel {
       if (readyAt < t) t = readyAt;
       return t;
     }
-    (void)now;
-    return dueMax;
+    return now <= dueExpect + 2 ? dueExpect : dueMax;
   }
 };
 
@@ -351,6 +358,7 @@ class ClockDevice {
   int64_t t = 0;        // simulated true milliseconds since the run began
   int64_t lastPollT = 0;  // for gap statistics
   bool useTestable = false, useStats = false;
+  bool probes = true;   // C14, reference mode: read the primary right before and after every loop() (see doLoop)
 
   ace_time::testing::FakeMillis fm;
   SimRtc rtc;            // durable
